@@ -96,6 +96,7 @@ func (o *Out) Op(format string, args ...any) {
 	kind := strings.SplitN(line[3:], " ", 2)[0]
 	o.OpHist[kind]++
 	fmt.Fprintln(o.w, line)
+	o.w.Flush() // the op about to run is on disk: a hang can be attributed to it
 	o.curLines = append(o.curLines, line)
 }
 
